@@ -4,7 +4,7 @@ import re
 from .. import hir
 from ..facts import relfile
 from ..report import RuleResult
-from .c01 import roots, find_body, eval_table
+from .c01 import roots, find_body, eval_table, field_roots
 
 EXPLANATION = (
     "The evaluator is written as a mirror of the code generator; mirror agreement is a sibling-table fact decided on the HIR: "
@@ -89,7 +89,7 @@ def rule_v1(F):
             for s in (body["a"], body["b"]):
                 s = hir.strip(s)
                 a = s["m"] if s.get("k") == "mcall" and s["m"].startswith("as_") else None
-                sides.append((a, roots(ld, s) - {"vars"}))
+                sides.append((a, field_roots(ld, s) - {"vars", "param:vars"}))
             r.inst(key, {"row": key, "op": op, "accessors": [sides[0][0], sides[1][0]], "operands": [sorted(sides[0][1]), sorted(sides[1][1])]})
             if op != want_op:
                 r.bad(b.path, key, relfile(b.file), row["line"], "%s is evaluated with `%s`, the code generator uses the condition for `%s`" % (key, op, want_op))
@@ -107,7 +107,7 @@ def rule_v1(F):
             r.bad(b.path, iname, relfile(b.file), rw["line"], "no value table in the %s arm" % iname)
             continue
         m = inner[0]
-        sroots = [roots(ld, x) - {"vars"} for x in (m["e"].get("elems") or [])]
+        sroots = [field_roots(ld, x) - {"vars", "param:vars"} for x in (m["e"].get("elems") or [])]
         if sroots != [{"left"}, {"right"}]:
             r.bad(b.path, iname + " operand order", relfile(b.file), m["line"], "%s matches on %s, expected (left, right)" % (iname, sroots))
         for row in hir.table(m):
@@ -159,7 +159,7 @@ def rule_v1(F):
                   "the Not arm stores its operand without negating it (code generator: icmp_imm(Equal, x, 0))")
         rt = set()
         for c in ctor:
-            rt |= roots(ld, c["args"][0]) - {"vars"}
+            rt |= field_roots(ld, c["args"][0]) - {"vars", "param:vars"}
         if rt and rt != {"val"}:
             r.bad(b.path, "Instruction::Not operand", relfile(b.file), rw["line"], "Not reads %s instead of its `val` operand" % sorted(rt))
     # Negate
@@ -322,6 +322,40 @@ def rule_v4(F):
     return r
 
 
+def rule_v6(F):
+    r = RuleResult("C20.V6", "IrValue equality (used for IntCmp/FloatCmp Eq/Ne): same variant, plain `==` on the payloads (IEEE for floats), everything else stops", floor=8)
+    ps = [p for p in F.paths() if "IrValue" in p and p.endswith("std::cmp::PartialEq>::eq")]
+    if not ps:
+        r.missing("<IrValue as PartialEq>::eq")
+        return r
+    b = F.body(ps[0])
+    ld = hir.LocalDefs(b.hir)
+    ms = hir.find_match_on(b.hir["value"], "IrValue::", min_arms=3)
+    if not ms:
+        r.missing("match over (IrValue, IrValue) in PartialEq for IrValue")
+        return r
+    for row in hir.table(ms[0]):
+        for a in row["alts"]:
+            mm = re.match(r"^\(IrValue::(\w+)\(_\),IrValue::(\w+)\(_\)\)$", a)
+            if a == "_":
+                r.inst("fallback")
+                if not hir.diverges(row["body"]):
+                    r.bad(b.path, "fallback", relfile(b.file), row["line"], "comparing values of different (or unsupported) types must stop the evaluator, not yield a value")
+                continue
+            if not mm:
+                continue
+            v = mm.group(1)
+            body = hir.strip(row["body"])
+            plain = body.get("k") == "bin" and body.get("op") == "==" and hir.peel_refs(body["a"]).get("k") == "path" and hir.peel_refs(body["b"]).get("k") == "path"
+            r.inst("eq " + v, {"variant": v, "plain_eq": plain})
+            if mm.group(1) != mm.group(2):
+                r.bad(b.path, "eq " + v, relfile(b.file), row["line"], "values of different variants (%s, %s) compare as equal-able" % (mm.group(1), mm.group(2)))
+            if not plain:
+                r.bad(b.path, "eq " + v, relfile(b.file), row["line"],
+                      "equality of IrValue::%s is not the plain `==` of the payloads (e.g. comparing float bit patterns): the JIT uses icmp/fcmp Equal, so NaN and +-0.0 (or any transformed payload) give a different result" % v)
+    return r
+
+
 def rules(ctx):
     F = ctx["F"]
-    return [rule_v1(F), rule_v2(F), rule_v3(F), rule_v4(F)]
+    return [rule_v1(F), rule_v2(F), rule_v3(F), rule_v4(F), rule_v6(F)]
